@@ -17,6 +17,11 @@ type Chooser struct {
 	Points []Point
 	// FullAt says which labels are enumerated fully (cost 0) instead of as deviations.
 	FullAt func(label string) bool
+	// StateKey, when set by the harness, describes the complete state of the execution at a choice
+	// point; the explorer does not branch again from a state it has branched from before.
+	StateKey func() string
+	seen     map[string]struct{}
+	prunedAt int // first point (beyond the prefix) whose state had been seen before; -1 = none
 }
 
 // Choose returns the answer in [0,n) for this point.
@@ -36,6 +41,14 @@ func (c *Chooser) Choose(n int, label string) int {
 	cost := 1
 	if c.FullAt != nil && c.FullAt(label) {
 		cost = 0
+	}
+	if i >= len(c.prefix) && c.seen != nil && c.StateKey != nil && c.prunedAt < 0 {
+		k := c.StateKey()
+		if _, dup := c.seen[k]; dup {
+			c.prunedAt = i
+		} else {
+			c.seen[k] = struct{}{}
+		}
 	}
 	c.Points = append(c.Points, Point{N: n, Label: label, Cost: cost, Chosen: v})
 	return v
@@ -63,7 +76,7 @@ func (c *Chooser) Deviations() int {
 
 // NewReplay builds a chooser that replays a recorded choice list.
 func NewReplay(choices []int, fullAt func(string) bool) *Chooser {
-	return &Chooser{prefix: choices, FullAt: fullAt}
+	return &Chooser{prefix: choices, FullAt: fullAt, prunedAt: -1}
 }
 
 // Perm decides the visiting order of n sorted keys at a map-range site:
@@ -139,6 +152,12 @@ type Explorer struct {
 	PointsSeen int64
 	MaxDepth   int
 	Capped     bool
+	// PruneSeenStates: do not branch again from a state (Chooser.StateKey) that was branched from before.
+	// Sound for unbounded exploration when the key captures everything the future depends on.
+	PruneSeenStates bool
+	States          int64 // distinct states branched from
+	Pruned          int64 // executions cut short of further branching by a seen state
+	seen            map[string]struct{}
 }
 
 // Explore runs body once per execution. body must be deterministic given the chooser.
@@ -151,8 +170,20 @@ func (e *Explorer) Explore(body func(ch *Chooser)) {
 			e.Capped = true
 			return
 		}
-		ch := &Chooser{prefix: prefix, FullAt: e.FullAt}
+		ch := &Chooser{prefix: prefix, FullAt: e.FullAt, prunedAt: -1}
+		if e.PruneSeenStates {
+			if e.seen == nil {
+				e.seen = map[string]struct{}{}
+			}
+			ch.seen = e.seen
+		}
 		body(ch)
+		if e.PruneSeenStates {
+			e.States = int64(len(e.seen))
+			if ch.prunedAt >= 0 {
+				e.Pruned++
+			}
+		}
 		e.Executions++
 		e.PointsSeen += int64(len(ch.Points))
 		if len(ch.Points) > e.MaxDepth {
@@ -171,6 +202,9 @@ func (e *Explorer) Explore(body func(ch *Chooser)) {
 			}
 			if cost+p.Cost > e.Bound {
 				continue
+			}
+			if ch.prunedAt >= 0 && i >= ch.prunedAt {
+				break // everything reachable from this state was explored when it was first seen
 			}
 			for alt := p.N - 1; alt >= 1; alt-- {
 				np := make([]int, i+1)
